@@ -553,6 +553,17 @@ Proof.
   unfold skel, set_fctl. reflexivity.
 Qed.
 
+(* a layout of constant ASCII text and numeric renderers writes ASCII for every record *)
+Lemma render_numeric_ascii L r : numeric_layout L = true -> asciib (render L r) = true.
+Proof.
+  unfold numeric_layout, render. induction (l_segs L) as [|s segs IH]; intros H; [reflexivity|].
+  cbn [forallb] in H. apply andb_prop in H as [Hs Hr]. cbn [map concat]. rewrite asciib_app, (IH Hr), andb_true_r.
+  destruct s; try discriminate Hs; cbn [render_seg numeric_seg] in *.
+  - exact Hs.
+  - apply NumFacts.numericField_ascii.
+  - apply NumFacts.itoa_ascii.
+Qed.
+
 (* the file control record the library writes is ASCII (digits and blanks): then nothing
    is ever left over inside it and the cut record is TruncBytes' cut_line *)
 Lemma cut_ctl_ascii l c j : asciib l = true -> length l = 94 -> c < 94 ->
@@ -589,6 +600,22 @@ Proof.
     { unfold utf8_records in Hg. rewrite Forall_forall in Hg. apply Hg. unfold record_lines. right. apply in_or_app. right. now left. }
     destruct U as (_ & R & _). now rewrite (rune_count_ascii _ Ha) in R. }
   destruct (cut_ctl_ascii (f_ctl f) c j Ha Hl ltac:(lia) Hjj) as [_ E]. rewrite E in H, V. split; assumption.
+Qed.
+
+(* ... in particular when the control record is what String() writes *)
+Corollary truncation_bytes_written_ctl f le k adv rc :
+  numeric_layout (fctl_layout adv) = true ->
+  le_ok le -> file_typed f = true -> starts99 (f_ctl f) = false -> utf8_records f ->
+  f_ctl f = render (fctl_layout adv) rc ->
+  read_validate T (skel f) = ROk -> k < length (write le f) ->
+  let r := read_text (firstn k (write le f)) in
+  r = None \/ r = Some f \/
+  exists c, 1 <= c < 94 /\ r = Some (with_ctl f (cut_line (f_ctl f) c)) /\
+    (read_validate T (skel (with_ctl f (cut_line (f_ctl f) c))) <> ROk \/
+     skel (with_ctl f (cut_line (f_ctl f) c)) = skel f).
+Proof.
+  intros HL Hle Ht H99 Hg Ec. apply truncation_bytes_ascii_ctl; try assumption.
+  rewrite Ec. now apply render_numeric_ascii.
 Qed.
 
 End VerdictU.
